@@ -34,7 +34,7 @@ SHAPES4 = [(0, 1), (0, 1, 2), (0, 1, 2, 3), (1, 2), (1, 2, 3), (2, 3), (0, 2), (
 def lanes(tier):
     if tier == "quick":
         return [("direct", "plain", 400), ("san", "san", 80), ("pipe", "plain", 96)]
-    return [("direct", "plain", 16000), ("san", "san", 2000), ("pipe", "plain", 3200)]
+    return [("direct", "plain", 16000), ("san", "san", 2000), ("pipe", "plain", 3200), ("vg-san", "vg", 16)]
 
 
 def run_pipe(rng, counters):
